@@ -2,7 +2,7 @@
    Statements only; proofs in he/Proofs.v and he/ProofsPace.v.  Every theorem quantifies over ALL attempt lists
    (any length, any outcomes and latencies), ALL configurations (delay, timeout, concurrency:
    none / zero / any value) and ALL tie-break orders among simultaneous completions. *)
-From HD Require Import common.Base he.Model he.Spec he.Proofs he.ProofsPace.
+From HD Require Import common.Base he.Model he.Spec he.Proofs he.ProofsPace he.Tcp he.TcpProofs.
 
 (* the whole C10 monitor (he/Spec.v): soundness of Ok, completeness, error, timeout and
    no-hang (liveness) clauses *)
@@ -61,6 +61,64 @@ Print Assumptions c10_total.
 Theorem c10_empty : forall c tb, he_obs c tb [] = (RNoProgress, Some 0%N, []).
 Proof. intros c tb. unfold he_obs, he_run. destruct c as [d t [[|k]|]]; reflexivity. Qed.
 Print Assumptions c10_empty.
+
+(* ---- the configuration TcpConnecting::connect builds (he/Tcp.v: delay = timeout / n in ns,
+   timeout, concurrency as configured; tcp_connect = he_obs under that configuration) ---- *)
+
+(* full-strength "succeeds whenever some candidate would": candidate i is polled by i * (T / n), so
+   if it accepts lat_i later and that is within the timeout T, the connect returns Ok *)
+Theorem c10_tcp_succeeds : forall T conc tb atts i a,
+  nth_error atts i = Some a -> a_out a = Succ ->
+  (N.of_nat i * (T / N.of_nat (length atts)) + a_lat a <= T)%N ->
+  exists r, fst (fst (tcp_connect (Some T) conc tb atts)) = ROk r.
+Proof. exact tcp_succeeds. Qed.
+Check c10_tcp_succeeds : forall T conc tb atts i a,
+  nth_error atts i = Some a -> a_out a = Succ ->
+  (N.of_nat i * (T / N.of_nat (length atts)) + a_lat a <= T)%N ->
+  exists r, fst (fst (tcp_connect (Some T) conc tb atts)) = ROk r.
+Print Assumptions c10_tcp_succeeds.
+
+(* without a timeout (hence without a stagger timer): success whenever some candidate accepts,
+   unless an attempt blocks for ever (then a hang is possible: c10_tcp_hang_example) *)
+Theorem c10_tcp_succeeds_no_timeout : forall conc tb atts i a,
+  nth_error atts i = Some a -> a_out a = Succ ->
+  (forall b, In b atts -> a_out b <> Never) ->
+  exists r, fst (fst (tcp_connect None conc tb atts)) = ROk r.
+Proof. exact tcp_succeeds_no_timeout. Qed.
+Print Assumptions c10_tcp_succeeds_no_timeout.
+
+(* local candidates (listening = accepts at once, refusing = fails at once), any timeout and
+   concurrency: some port listens -> Ok, with a listening port (what harness/src/bin/tcpglue.rs runs) *)
+Theorem c10_tcp_local_succeeds : forall timeout conc tb l i,
+  nth_error l i = Some true ->
+  exists r, fst (fst (tcp_connect timeout conc tb (local_atts l))) = ROk r /\ nth_error l r = Some true.
+Proof. exact tcp_local_succeeds. Qed.
+Print Assumptions c10_tcp_local_succeeds.
+
+(* error mapping: "Exhausted connection candidates" exactly for an empty candidate list;
+   "Connection attempts timed out" never without a configured timeout *)
+Theorem c10_tcp_exhausted_iff : forall timeout conc tb atts,
+  tcp_result timeout conc tb atts = TErrExhausted <-> atts = [].
+Proof. exact tcp_exhausted_iff. Qed.
+Print Assumptions c10_tcp_exhausted_iff.
+
+Theorem c10_tcp_timeout_only_configured : forall conc tb atts, tcp_result None conc tb atts <> TErrTimeout.
+Proof. exact tcp_timeout_only_configured. Qed.
+Print Assumptions c10_tcp_timeout_only_configured.
+
+(* non-vacuity: T = 30, three candidates, d = 10: the third one is polled at 20 and accepts at 24 *)
+Example c10_tcp_example :
+  tcp_connect (Some 30%N) (Some 1%nat) [] [mkAtt Never 0; mkAtt Never 0; mkAtt Succ 4]%N
+  = (ROk 2, Some 24%N, [EStart 0 0; EStart 1 10; EStart 2 20; EDone 2 24])%N.
+Proof. vm_compute. reflexivity. Qed.
+(* the hypothesis of c10_tcp_succeeds is sharp: accepting one tick later loses against the deadline *)
+Example c10_tcp_late_example :
+  tcp_result (Some 30%N) (Some 1%nat) [] [mkAtt Never 0; mkAtt Never 0; mkAtt Succ 11]%N = TErrTimeout.
+Proof. vm_compute. reflexivity. Qed.
+(* and without a timeout a blocked first attempt hangs the connect although the second would accept *)
+Example c10_tcp_hang_example :
+  tcp_result None (Some 1%nat) [] [mkAtt Never 0; mkAtt Succ 5]%N = THang.
+Proof. vm_compute. reflexivity. Qed.
 
 (* non-vacuity: a run in which the second candidate wins after the first failed *)
 Example c10_example :
